@@ -160,7 +160,8 @@ def _main():
     for line in stdin:
         try:
             message = loads(line)
-        except ValueError:
+        except (ValueError, RecursionError):
+            # (RecursionError: input nested too deeply for the JSON decoder)
             stdout.write("Not JSON: {}\n\n".format(line.rstrip(b"\n")))
             continue
         if not isinstance(message, dict) or REQUIRED_FIELDS - set(message.keys()):
